@@ -33,6 +33,7 @@ type drvRequest struct {
 	OtherUDPSize int               `json:"other_udpsize,omitempty"`
 	Churn        int               `json:"churn,omitempty"`
 	LazyDrain    bool              `json:"lazy_drain,omitempty"`
+	Verbose      bool              `json:"verbose,omitempty"`
 	Filter       []uint32          `json:"filter,omitempty"`
 	ResetCache   bool              `json:"reset_cache,omitempty"`
 	Mirror       bool              `json:"mirror,omitempty"`
